@@ -398,6 +398,22 @@ func checkC15(p *pue, c *c15Case, r *vstat.Run) outcome {
 	if errText(tr.err) != errText(base.err) || !reflect.DeepEqual(tr.ast, base.ast) {
 		return violationf("trace-differs", "%s: the Trace option changes the result: error %q vs %q", desc, errText(tr.err), errText(base.err))
 	}
+	// ... also next to another option, in either order (every option of a call takes effect)
+	{
+		var plain, t1, t2 res
+		var b1, b2 bytes.Buffer
+		if m := guard(func() {
+			plain.ast, plain.err = p.parse("string", c.Filename, in, participle.AllowTrailing(true))
+			t1.ast, t1.err = p.parse("string", c.Filename, in, participle.AllowTrailing(true), participle.Trace(&b1))
+			t2.ast, t2.err = p.parse("bytes", c.Filename, in, participle.Trace(&b2), participle.AllowTrailing(true))
+		}); m == "" {
+			for i, tr := range []res{t1, t2} {
+				if errText(tr.err) != errText(plain.err) || !reflect.DeepEqual(tr.ast, plain.ast) {
+					return violationf("trace-differs", "%s: AllowTrailing(true) gives error %q, AllowTrailing(true) together with Trace (order %d) gives %q", desc, errText(plain.err), i+1, errText(tr.err))
+				}
+			}
+		}
+	}
 	// AllowTrailing without a reference parser (example grammars): the caller's lexer must end where the parse
 	// stopped, i.e. parsing exactly the text in front of the lexer's next token (no trailing input allowed) gives
 	// the same AST
